@@ -75,10 +75,7 @@ package leanhelix
 //@   modifies state.State.view, M:S_state_HeightView:Int
 //@   ensures result != nil && TermHeightOf(result) == st.height
 
-//@ dep (*leanhelixterm.LeanHelixTerm).Dispose
-//@   params self
-//@   modifies ghost:disposed
-//@   ensures disposed[self]
+// (*leanhelixterm.LeanHelixTerm).Dispose: verified in its own package (disposes the protocol logic, which stops the election timer)
 
 // an election trigger handed over by the scheduler: TermInCommittee.moveToNextLeaderByElection bound to (height, view)
 //@ dep field:interfaces.ElectionTrigger.MoveToNextLeader
@@ -93,7 +90,7 @@ package leanhelix
 //@   requires lh.state != nil && lh.filter != nil && lh.filter.state == lh.state && lh.filter.futureCache != nil && lh.state.Contexts != nil
 //@   requires lastRoundHeight <= lh.state.height && lastCommitHeight <= lh.state.height && ndelivered >= 0
 //@   inv [filter.cache] forall k int, i int :: has(lh.filter.futureCache, k) && 0 <= i && i < len(lh.filter.futureCache[k]) ==> lh.filter.futureCache[k][i].BlockHeight() == k && lh.filter.futureCache[k][i].InstanceId() == lh.filter.instanceId && lh.filter.futureCache[k][i].SenderMemberId() != lh.filter.myMemberId
-//@   modifies state.State.height, state.State.view, leanhelix.WorkerLoop.leanHelixTerm, M:S_state_HeightView:Int, ghost:lastRoundHeight, ghost:lastCommitHeight, rawmessagesfilter.RawMessageFilter.consensusMessagesHandler, rawmessagesfilter.RawMessageFilter.latestFutureBlockHeight, M:Int:Slice_Iface, ghost:ndelivered, ghost:delivered, ghost:disposed
+//@   modifies state.State.height, state.State.view, leanhelix.WorkerLoop.leanHelixTerm, M:S_state_HeightView:Int, ghost:lastRoundHeight, ghost:lastCommitHeight, rawmessagesfilter.RawMessageFilter.consensusMessagesHandler, rawmessagesfilter.RawMessageFilter.latestFutureBlockHeight, M:Int:Slice_Iface, ghost:ndelivered, ghost:delivered, leanhelixterm.LeanHelixTerm.termInCommittee, ghost:schedStopped
 //@   ensures [O13.state-moves-forward] lh.state.height >= old(lh.state.height)
 //@   ensures [O13.5.rounds-stay-below-state] lastRoundHeight <= lh.state.height && lastRoundHeight >= old(lastRoundHeight)
 //@   ensures [O14.4.the-node-ends-above-the-previous-block-unless-shut-down-or-overtaken] blockheight.GetBlockHeight(prevBlock) < 18446744073709551615 && !old(lh.state.Contexts.shutdown)
@@ -109,7 +106,7 @@ package leanhelix
 //@   requires lastRoundHeight <= lh.state.height && ndelivered >= 0
 //@   inv [filter.cache] forall k int, i int :: has(lh.filter.futureCache, k) && 0 <= i && i < len(lh.filter.futureCache[k]) ==> lh.filter.futureCache[k][i].BlockHeight() == k && lh.filter.futureCache[k][i].InstanceId() == lh.filter.instanceId && lh.filter.futureCache[k][i].SenderMemberId() != lh.filter.myMemberId
 //@   requires [O13.6.commit-for-the-current-height-only-once] block != nil && block.Height() == lh.state.height && lastCommitHeight < block.Height()
-//@   modifies state.State.height, state.State.view, leanhelix.WorkerLoop.leanHelixTerm, M:S_state_HeightView:Int, ghost:lastRoundHeight, ghost:lastCommitHeight, rawmessagesfilter.RawMessageFilter.consensusMessagesHandler, rawmessagesfilter.RawMessageFilter.latestFutureBlockHeight, M:Int:Slice_Iface, ghost:ndelivered, ghost:delivered, ghost:disposed
+//@   modifies state.State.height, state.State.view, leanhelix.WorkerLoop.leanHelixTerm, M:S_state_HeightView:Int, ghost:lastRoundHeight, ghost:lastCommitHeight, rawmessagesfilter.RawMessageFilter.consensusMessagesHandler, rawmessagesfilter.RawMessageFilter.latestFutureBlockHeight, M:Int:Slice_Iface, ghost:ndelivered, ghost:delivered, leanhelixterm.LeanHelixTerm.termInCommittee, ghost:schedStopped
 //@   ensures [O13.6.recorded] lastCommitHeight >= old(block.Height()) && lastCommitHeight <= lh.state.height
 //@   ensures [O13.state-moves-forward] lh.state.height >= old(lh.state.height)
 
@@ -120,7 +117,7 @@ package leanhelix
 //@   requires lh.state != nil && lh.filter != nil && lh.filter.state == lh.state && lh.filter.futureCache != nil && lh.state.Contexts != nil
 //@   requires lastRoundHeight <= lh.state.height && lastCommitHeight <= lh.state.height && ndelivered >= 0
 //@   inv [filter.cache] forall k int, i int :: has(lh.filter.futureCache, k) && 0 <= i && i < len(lh.filter.futureCache[k]) ==> lh.filter.futureCache[k][i].BlockHeight() == k && lh.filter.futureCache[k][i].InstanceId() == lh.filter.instanceId && lh.filter.futureCache[k][i].SenderMemberId() != lh.filter.myMemberId
-//@   modifies state.State.height, state.State.view, leanhelix.WorkerLoop.leanHelixTerm, M:S_state_HeightView:Int, ghost:lastRoundHeight, ghost:lastCommitHeight, rawmessagesfilter.RawMessageFilter.consensusMessagesHandler, rawmessagesfilter.RawMessageFilter.latestFutureBlockHeight, M:Int:Slice_Iface, ghost:ndelivered, ghost:delivered, ghost:disposed
+//@   modifies state.State.height, state.State.view, leanhelix.WorkerLoop.leanHelixTerm, M:S_state_HeightView:Int, ghost:lastRoundHeight, ghost:lastCommitHeight, rawmessagesfilter.RawMessageFilter.consensusMessagesHandler, rawmessagesfilter.RawMessageFilter.latestFutureBlockHeight, M:Int:Slice_Iface, ghost:ndelivered, ghost:delivered, leanhelixterm.LeanHelixTerm.termInCommittee, ghost:schedStopped
 //@   ensures [O14.2.stale-sync-changes-nothing] blockheight.GetBlockHeight(receivedBlockWithProof.block) < old(lh.state.height) ==> lh.state.height == old(lh.state.height) && lh.state.view == old(lh.state.view)
 //@     | && lh.leanHelixTerm == old(lh.leanHelixTerm) && lastRoundHeight == old(lastRoundHeight) && ndelivered == old(ndelivered)
 //@   ensures [O14.4.height-never-moves-back] lh.state.height >= old(lh.state.height)
@@ -139,14 +136,14 @@ package leanhelix
 //@   requires ctx != nil && lh.state != nil && lh.filter != nil && lh.filter.state == lh.state && lh.filter.futureCache != nil && lh.state.Contexts != nil
 //@   requires lastRoundHeight <= lh.state.height && lastCommitHeight <= lh.state.height && ndelivered >= 0
 //@   requires [filter.cache] forall k int, i int :: has(lh.filter.futureCache, k) && 0 <= i && i < len(lh.filter.futureCache[k]) ==> lh.filter.futureCache[k][i].BlockHeight() == k && lh.filter.futureCache[k][i].InstanceId() == lh.filter.instanceId && lh.filter.futureCache[k][i].SenderMemberId() != lh.filter.myMemberId
-//@   modifies state.State.height, state.State.view, leanhelix.WorkerLoop.leanHelixTerm, M:S_state_HeightView:Int, ghost:lastRoundHeight, ghost:lastCommitHeight, rawmessagesfilter.RawMessageFilter.consensusMessagesHandler, rawmessagesfilter.RawMessageFilter.latestFutureBlockHeight, M:Int:Slice_Iface, ghost:ndelivered, ghost:delivered, ghost:disposed
+//@   modifies state.State.height, state.State.view, leanhelix.WorkerLoop.leanHelixTerm, M:S_state_HeightView:Int, ghost:lastRoundHeight, ghost:lastCommitHeight, rawmessagesfilter.RawMessageFilter.consensusMessagesHandler, rawmessagesfilter.RawMessageFilter.latestFutureBlockHeight, M:Int:Slice_Iface, ghost:ndelivered, ghost:delivered, leanhelixterm.LeanHelixTerm.termInCommittee, ghost:schedStopped
 //@   loop for
 //@     invariant [frame] lh.state == old(lh.state) && lh.filter == old(lh.filter) && lh.filter.state == lh.state && lh.filter.futureCache == old(lh.filter.futureCache) && lh.state.Contexts == old(lh.state.Contexts)
 //@     invariant [O17.the-installed-term-is-the-term-of-the-current-height] (lh.filter.consensusMessagesHandler != nil ==> TermHeightOf(dyn(lh.filter.consensusMessagesHandler, *leanhelixterm.LeanHelixTerm)) == lh.state.height)
 //@     invariant [O13.heights-stay-ordered] lastRoundHeight <= lh.state.height && lastCommitHeight <= lh.state.height && ndelivered >= 0 && lh.state.height >= old(lh.state.height)
 //@     invariant [filter.cache] forall k int, i int :: has(lh.filter.futureCache, k) && 0 <= i && i < len(lh.filter.futureCache[k]) ==> lh.filter.futureCache[k][i].BlockHeight() == k && lh.filter.futureCache[k][i].InstanceId() == lh.filter.instanceId && lh.filter.futureCache[k][i].SenderMemberId() != lh.filter.myMemberId
 //@   ensures [O16.2.the-worker-returns-only-after-observing-shutdown] done_observed(ctx)
-//@   ensures [O16.2.the-running-term-is-disposed-before-the-worker-returns] lh.leanHelixTerm != nil ==> disposed[lh.leanHelixTerm]
+//@   ensures [O16.2.the-running-term-is-disposed-before-the-worker-returns] lh.leanHelixTerm != nil ==> lh.leanHelixTerm.termInCommittee == nil
 //@   assert before call MoveToNextLeader [O19.6.only-a-trigger-for-the-current-height-and-view-fires] trigger.Hv.height == lh.state.height && trigger.Hv.view == lh.state.view
 //@   assert before call handleUpdateState [O14.2.the-sync-received-is-the-one-handled] $receivedBlockWithProof == receivedBlockWithProof
 
